@@ -12,12 +12,12 @@ def gen(c):
         shapes = [(a, m) for a in cl for m in cl]
         k = 12 if w > 1 else 40
         shapes = rng.sample(shapes, k if not th else min(len(shapes), 3 * k))
-        shapes += [(33, 5 * rate + 3), (0, 4 * rate), (2 * rate, 64), (5, 100)] if w < 1 or th else [(9, 33)]
+        shapes += [(33, 5 * rate + 3), (0, 4 * rate), (2 * rate, 64), (5, 100), (64, 3), (100, 20), (8 * rate + 2, 0)] if w < 1 or th else [(9, 33), (72, 5)]
         if th and w < 1: shapes += [(100, 300), (7, 1024)]
         for adl, ml in shapes:
             kk = pattern(rng, klen); n = pattern(rng, 16); ad = pattern(rng, adl); m = pattern(rng, ml)
-            p.case(['aead.enc scheme=%s k=%s n=%s ad=%s m=%s fam=c,cpp,cppba inplace=%d null_if_empty=%d align=%d ba_noad=%d' % (
-                sc, hx(kk), hx(n), hx(ad), hx(m), rng.randrange(2), rng.randrange(2), rng.randrange(8), rng.randrange(2))], cost=w + (adl + ml) / 100.0)
+            p.case(['aead.enc scheme=%s k=%s n=%s ad=%s m=%s fam=c,cpp,cppba inplace=%d null_if_empty=%d align=%d oalign=%d ba_noad=%d' % (
+                sc, hx(kk), hx(n), hx(ad), hx(m), rng.randrange(2), rng.randrange(2), rng.randrange(8), rng.randrange(8), rng.randrange(2))], cost=w + (adl + ml) / 100.0)
             c.distinct([(sc, adl % rate, min(adl // rate, 3), ml % rate, min(ml // rate, 3))])
     # pre-computed key histories: init, packets, save at any point, load into a fresh object, continue, decrypt
     for sc, klen, rate, w in SCH[3:]:
